@@ -58,7 +58,40 @@ def run(ctx):
     from .sentinels import sentinel_rule
     sentinel_rule(prog, r2, [f for f in prog.funcs.values() if "asn1-tools/" in f.relfile],
                   {"ber_fetch_tag": (0, -1), "ber_fetch_length": (0, -1)})
-    return [r1, r2]
+    return [r1, r2, r20_3(prog)]
+
+
+def r20_3(prog):
+    """No block allocated inside a tool function is released twice.  The ownership walk of C14 (alias groups of the
+    local holders of an allocation, releases through free()/FREEMEM and the releasing helpers, holders reset by
+    assignment) is run for every allocation site in asn1-tools/; only its double-free verdict is used here: leaks at
+    process exit and unchecked allocations are not memory errors in the sense of this property."""
+    from .. import ownership
+    r = Rule("R20.3", "no heap block allocated in a tool function is freed twice on any path", floor=4)
+    tab14 = load_tables("c14")
+    summ = ownership.Summaries(prog, tab14)
+    for f in sorted(prog.funcs.values(), key=lambda f: f.key):
+        if "asn1-tools/" not in f.relfile:
+            continue
+        for b, i, e in f.calls():
+            if not summ.is_alloc_call(e):
+                continue
+            group, esc = ownership.holders_of_site(f, b, i, e)
+            key = "%s->%s" % (e.get("callee"), ",".join(sorted(v.split("@")[0] for v in group)) or ("<nonlocal>" if esc else e.get("use")))
+            if not group:
+                r.ok(f, key, "result stored directly into non-local storage (not tracked)", e["line"], nontrivial=False)
+                continue
+            finds, _, _ = ownership.walk_site(f, b, i, e, summ, "owned")
+            df = [x for x in finds if x["kind"] == "double-free"]
+            if df:
+                fd = df[0]
+                r.bad(f, key, "the block allocated here is freed a second time at line %s" % fd.get("line"), e["line"],
+                      witness={"at_line": fd.get("line"), "path": guards.path_lines(f, list(fd["path"]))})
+            elif any(x["kind"] == "state-limit" for x in finds):
+                r.bad(f, key, "path exploration limit reached (not decided)", e["line"])
+            else:
+                r.ok(f, key, "released at most once on every path", e["line"])
+    return r
 
 
 def thorough(ctx):
